@@ -28,7 +28,8 @@ func runSimple(text string, vars map[string]string, meta map[string]map[string]s
 			st = "parse-error"
 			return
 		}
-		r, err := p.Run(context.Background(), vars, copyStore{bal: map[string]map[string]int64{}, meta: meta})
+		// the repository's own store (it is what a caller of the library uses)
+		r, err := p.Run(context.Background(), vars, numscript.StaticStore{Balances: numscript.Balances{}, Meta: mkMeta(meta)})
 		if err != nil {
 			st = errClass(err)
 			return
@@ -297,8 +298,9 @@ func rtRun(lw *lineWriter, vals []rtValue, pcnt *int, pnontriv *int, psamples *[
 				line["txj1"] = jsonText(x)
 			}
 			// run 2: read it back through a metadata-backed variable of the same type
-			s2 := fmt.Sprintf("vars { %s $x = meta(@m, \"k\") }\nset_account_meta(@m, \"k2\", $x)\nset_tx_meta(\"k\", $x)", v.typ)
-			res2, st2 := runSimple(s2, nil, map[string]map[string]string{"m": {"k": am1}})
+			// (next to other metadata-backed variables on the same account, before and after it)
+			s2 := fmt.Sprintf("vars { string $w = meta(@m, \"other\")\n %s $x = meta(@m, \"k\")\n string $z = meta(@m, \"last\") }\nset_account_meta(@m, \"k2\", $x)\nset_tx_meta(\"k\", $x)\nset_tx_meta(\"w\", $w)\nset_tx_meta(\"z\", $z)", v.typ)
+			res2, st2 := runSimple(s2, nil, map[string]map[string]string{"m": {"other": "o", "k": am1, "last": "l"}})
 			line["st2"] = st2
 			if st2 == "ok" {
 				line["am2"] = res2.AccountsMetadata["m"]["k2"]
